@@ -1,5 +1,6 @@
 import IoraModel.Lemmas.HttpClient
 import IoraModel.Lemmas.HttpServer
+import IoraModel.Lemmas.HttpExact
 /-!
 # C15 — HTTP/1.1 message framing is exact, segmentation-independent and bounded
 
@@ -11,6 +12,54 @@ namespace Iora.C15
 open Iora Iora.Http
 
 /-! ## Client -/
+
+open Iora.Http.Spec in
+/-- **F1 (exactness, self-delimiting bodies).** For every well-formed final response `m` of the reference syntax
+(`Model/Http1Spec.lean`: status line, arbitrary field lines with OWS padding around the framing field, body framed by
+Content-Length, by chunked coding with chunk extensions and a trailer section, or absent for HEAD/204/304), preceded by any
+number of interim 1xx responses and followed by any surplus bytes `x`, one read of the whole stream returns exactly the
+status, reason, version, header map and body of `m`, and `forceEvict` is set iff `x ≠ []`. -/
+theorem F1_exact (method : Bytes) (cap : Nat) (is : List Interim) (m : Response) (x : Bytes)
+    (his : ∀ i ∈ is, InterimWF i) (hm : RespWF method cap m) (hnc : ∀ b, m.body ≠ .untilClose b)
+    (hcap : (renderInterims is ++ m.render ++ x).length ≤ cap) :
+    (recvStep method cap {} (.data (renderInterims is ++ m.render ++ x))).2 =
+      .response { status := m.sl.status, text := m.sl.reason.getD [], version := m.sl.version,
+                  headers := headerMap m.fields, body := m.body.content } (decide (x ≠ [])) :=
+  recv_exact method cap is m x his hm hnc hcap
+
+open Iora.Http.Spec in
+/-- **F1′ (exactness, close-delimited body).** Without Content-Length/Transfer-Encoding the body is everything up to the
+peer's close; the connection is never reused (`forceEvict`). -/
+theorem F1_exact_close (method : Bytes) (cap : Nat) (is : List Interim) (m : Response) (b x : Bytes)
+    (his : ∀ i ∈ is, InterimWF i) (hm : RespWF method cap m) (hb : m.body = .untilClose b)
+    (hcap : (renderInterims is ++ m.render ++ x).length ≤ cap) :
+    (runLoop method cap {} [.data (renderInterims is ++ m.render ++ x), .peerClosed]).2 =
+      .response { status := m.sl.status, text := m.sl.reason.getD [], version := m.sl.version,
+                  headers := headerMap m.fields, body := b ++ x } true :=
+  recv_exact_close method cap is m b x his hm hb hcap
+
+open Iora.Http.Spec in
+/-- non-vacuity: `HTTP/1.1 200 OK`, `Transfer-Encoding: gzip, chunked`, chunks `3;a=b CRLF abc`, last chunk `00 ;x` with a
+trailer line, is a well-formed response for `GET` under a 1 MiB cap; `HTTP/1.1 100 Continue` is a well-formed interim -/
+example : RespWF (ascii "GET") 1048576
+    { sl := { minor := 1, status := 200, reason := some (ascii "OK") }, before := [], after := [],
+      body := .chunked (ascii "gzip, chunked") [{ tok := ascii "3", ext := ascii ";a=b", data := ascii "abc" }]
+                { tok := ascii "00", ext := ascii " ;x", trailers := [ascii "X-T: 1"] } } where
+  sl_ok := ⟨by decide, by decide, by intro r hr; cases hr; decide⟩
+  final := by decide
+  before_ok := by intro f hf; cases hf
+  after_ok := by intro f hf; cases hf
+  not_connect := by decide
+  body_ok := by
+    refine ⟨by decide, by decide, by decide, by decide, ?_, ?_⟩
+    · intro c hc
+      simp only [List.mem_singleton] at hc
+      subst hc
+      exact ⟨by decide, by decide, by decide, by decide, Or.inr ⟨[], ascii "a=b", by decide, by decide, by decide⟩⟩
+    · exact ⟨by decide, Or.inr ⟨[32], ascii "x", by decide, by decide, by decide⟩, by
+        intro t ht; simp only [List.mem_singleton] at ht; subst ht; exact ⟨by decide, by decide⟩⟩
+example : InterimWF { sl := { minor := 1, status := 100, reason := some (ascii "Continue") } } :=
+  ⟨⟨by decide, by decide, by intro r hr; cases hr; decide⟩, by decide, by intro f hf; cases hf⟩
 
 /-- **F2a (any segmentation = the whole buffer).** Feeding the receive loop ANY segmentation `ss` of a byte stream, one
 read at a time through the carried state (`headerScanPos`, `ChunkState`, …), gives what framing the whole stream in one
